@@ -4,10 +4,11 @@ import SamplyModel.Model.LibMappings
 Line protocol for C11. The first line selects what is driven.
 
 `mode table`    the public `LibMappings<u32>` type, call by call
-  ops:  `add <start> <end> <rel> <value>` | `remove <start>` | `clear` | `probe <addr>*`
+  ops:  `add <start> <end> <rel> <value>` | `remove <start>` | `clear` | `probe <addr>*` | `dump`
   out:  add → `ok` | `panic` (state unchanged);  remove → `removed -` | `removed <rel> <value>`;  clear → `ok`;
         probe → `res <tok>*`, one token per address: `<lookup>/<convert>` with lookup = `-` | `<value>` and
-        convert = `-` | `<value>:<rel>` | `!` (panic)
+        convert = `-` | `<value>:<rel>` | `!` (panic);
+        dump → `ents <start>:<end>:<rel>:<value>*` (the stored entries in key order, from the derived `Debug` output)
 
 `mode profile`  the public `Profile` API with 3 processes (one thread each); library `v` is `LibraryInfo{name: "lib<v>"}`
   ops:  `kadd <start> <end> <rel> <v>` | `kremove <start>` | `padd <p> <start> <end> <rel> <v>` | `premove <p> <start>`
@@ -42,6 +43,7 @@ def parseProc (s : String) : Option Nat := do
 inductive TLine
   | op (o : Op)
   | probe (addrs : List Nat)
+  | dump
 
 def parseT (l : String) : Option TLine :=
   match words l with
@@ -49,6 +51,7 @@ def parseT (l : String) : Option TLine :=
   | ["remove", s] => (parseAddr s).map (fun s => .op (.remove s))
   | ["clear"] => some (.op .clear)
   | "probe" :: addrs => (addrs.mapM parseAddr).map .probe
+  | ["dump"] => some .dump
   | _ => none
 
 def parseP (l : String) : Option POp :=
@@ -104,11 +107,16 @@ def removedLine : Option M → String
   | none => "removed -"
   | some m => s!"removed {m.rel} {m.v}"
 
+def entTok (m : M) : String := s!"{m.s}:{m.e}:{m.rel}:{m.v}"
+
+def entsLine (mp : List M) : String := " ".intercalate ("ents" :: mp.map entTok)
+
 def modelTable (ls : List TLine) : List String :=
   let rec go (t : Table) (ls : List TLine) (acc : List String) : List String :=
     match ls with
     | [] => acc.reverse
     | .probe addrs :: r => go t r ((" ".intercalate ("res" :: addrs.map (probeTok t.map))) :: acc)
+    | .dump :: r => go t r (entsLine t.map :: acc)
     | .op o :: r =>
       let line := match o with
         | .add _ => if stepSafe t o then "ok" else "panic"
@@ -184,6 +192,14 @@ def judgeTable (ls : List TLine) (outs : List String) : Bool × String :=
         | some why => (false, s!"line {k}: {why}")
         | none => go hist r os (k + 1)
       | _ => (false, s!"line {k}: bad probe output {o}")
+    | .dump :: r, o :: os =>
+      -- the implementation's own table: exactly the live mappings of the history, ordered, pairwise disjoint
+      let expected := (liveSpec hist).mergeSort (fun a b => a.s ≤ b.s)
+      let disjoint := (expected.zip (expected.drop 1)).all (fun (a, b) => a.e ≤ b.s)
+      if o ≠ entsLine expected then
+        (false, s!"line {k}: table is '{o}', live mappings of the history are '{entsLine expected}'")
+      else if !disjoint then (false, s!"line {k}: stored mappings overlap: {o}")
+      else go hist r os (k + 1)
     | .op (.add x) :: r, o :: os =>
       if x.e ≤ x.s then (true, "ok (judged up to the first empty-range add, which is outside the statement)")
       else if o ≠ "ok" then (false, s!"line {k}: add [{x.s},{x.e}) answered {o}")
